@@ -31,6 +31,7 @@ import (
 	"github.com/fatedier/frp/pkg/proto/udp"
 	"github.com/fatedier/frp/pkg/util/limit"
 	netpkg "github.com/fatedier/frp/pkg/util/net"
+	"github.com/fatedier/frp/pkg/util/verifhook"
 	"github.com/fatedier/frp/server/metrics"
 )
 
@@ -87,6 +88,7 @@ func (pxy *UDPProxy) Run() (remoteAddr string, err error) {
 		}
 	}()
 
+	verifhook.At("server.proxy.udp.afterAcquire", pxy.name, pxy.realBindPort)
 	remoteAddr = fmt.Sprintf(":%d", pxy.realBindPort)
 	pxy.cfg.RemotePort = pxy.realBindPort
 	addr, errRet := net.ResolveUDPAddr("udp", net.JoinHostPort(pxy.serverCfg.ProxyBindAddr, strconv.Itoa(pxy.realBindPort)))
@@ -246,6 +248,7 @@ func (pxy *UDPProxy) Run() (remoteAddr string, err error) {
 }
 
 func (pxy *UDPProxy) Close() {
+	verifhook.At("server.proxy.udp.close.enter", pxy.name, pxy.realBindPort)
 	pxy.mu.Lock()
 	defer pxy.mu.Unlock()
 	if !pxy.isClosed {
